@@ -159,12 +159,45 @@ void snoopy_tsrm_dtor ()
  * Return:
  *     void
  */
+/*
+ * fork() handlers
+ *
+ * A child created by fork() contains only the forking thread, but a copy of the
+ * whole memory image. If another thread was holding the threadRepo mutex at that
+ * moment, the child would inherit a mutex locked by a thread that does not exist
+ * there, and its first execv()/execve() call would block forever.
+ *
+ * Therefore: hold the mutex across the fork (no other thread can be in the middle
+ * of changing the repo), release it in the parent, and start with a fresh mutex
+ * in the child (it cannot simply be unlocked there - the owner of a recursive
+ * mutex is recorded by thread ID, which is different in the child).
+ */
+static void snoopy_tsrm_atfork_prepare ()
+{
+    pthread_mutex_lock(&snoopy_tsrm_threadRepo_mutex);
+}
+
+static void snoopy_tsrm_atfork_parent ()
+{
+    pthread_mutex_unlock(&snoopy_tsrm_threadRepo_mutex);
+}
+
+static void snoopy_tsrm_atfork_child ()
+{
+    pthread_mutex_init(&snoopy_tsrm_threadRepo_mutex, &snoopy_tsrm_threadRepo_mutexAttr);
+}
+
+
+
 void snoopy_tsrm_init ()
 {
     // Initialize threadRepo mutex
     pthread_mutexattr_init   (&snoopy_tsrm_threadRepo_mutexAttr);
     pthread_mutexattr_settype(&snoopy_tsrm_threadRepo_mutexAttr, PTHREAD_MUTEX_RECURSIVE);
     pthread_mutex_init       (&snoopy_tsrm_threadRepo_mutex, &snoopy_tsrm_threadRepo_mutexAttr);
+
+    // Keep the mutex usable in children created by fork()
+    pthread_atfork(&snoopy_tsrm_atfork_prepare, &snoopy_tsrm_atfork_parent, &snoopy_tsrm_atfork_child);
 }
 
 
